@@ -407,7 +407,15 @@ def rgen_generated_subscriptions(ctx):
     from . import c17
     return c17.w_rules(ctx)
 
-LIB_RULES = [r1_typestate, r2_closed_check_first, r3_identity, r4_close_gating, r5_unsubscribe_key, r6_single_writer, r7_envelope_is_fresh, r8_sibling_registrars, r9_low_level_connection_is_driven_by_its_future, r10_lossy_sends_are_the_api_only, rflag_success_flag_matches_json, r11_returned_messages_are_complete]
+
+def rstop_server_stop_is_reported_after_the_drain(ctx):
+    """`closed by the server stopping`: ServerHandle::stopped() resolves when every StopHandle is gone, so a connection keeps
+    its handle until its pending calls are answered and its writer has ended - only then do sinks report closed (= C10.R1)"""
+    from . import c10
+    c10.r1_who_keeps_stopped_pending(ctx)
+
+
+LIB_RULES = [rstop_server_stop_is_reported_after_the_drain, r1_typestate, r2_closed_check_first, r3_identity, r4_close_gating, r5_unsubscribe_key, r6_single_writer, r7_envelope_is_fresh, r8_sibling_registrars, r9_low_level_connection_is_driven_by_its_future, r10_lossy_sends_are_the_api_only, rflag_success_flag_matches_json, r11_returned_messages_are_complete]
 CONFIGS_QUICK = ["libs-all", "corpus"]
 CONFIGS_THOROUGH = ["libs-all", "facade-full", "corpus"]
 
